@@ -334,6 +334,33 @@ def r05_status_ownership(ctx, fixture_module=None):
     repo = ctx.repo
     d = deriv(ctx)
     cand = repo.cls('droop.candidate.Candidate')
+    # (0) what the status methods themselves do: a candidate starts hopeful unless WITHDRAWN (nothing else - the ballots were only
+    # stripped of withdrawn candidates); elect() always ends with state 'elected', defeat() with 'defeated', on every path, and
+    # neither turns into the other
+    init_c = cand.methods.get('__init__')
+    need(init_c is not None, 'Candidate.__init__ missing')
+    sts = [n_ for n_ in init_c.own_nodes() if isinstance(n_, ast.Assign) and unparse(n_.targets[0]) == 'self.state']
+    wparam = [p_ for p_ in init_c.params if 'ithdrawn' in p_]
+    oki = len(sts) == 1 and len(wparam) == 1 and isinstance(sts[0].value, ast.IfExp) and isinstance(sts[0].value.test, ast.Name) \
+        and sts[0].value.test.id == wparam[0] and const_str(sts[0].value.body) == 'withdrawn' and const_str(sts[0].value.orelse) == 'hopeful' \
+        and wparam[0] not in init_c.assigns()        # the parameter is what the caller passed: never re-bound before the test
+    ctx.check(oki, R, sts[0] if sts else init_c.node, init_c, 'a candidate starts as withdrawn exactly when the profile withdrew it, otherwise hopeful',
+              "self.state = 'withdrawn' if isWithdrawn else 'hopeful'",
+              'the initial status is `%s`: a candidate the ballots still rank can start outside the count (its votes are credited to nobody that is ever transferred)'
+              % (unparse(sts[0].value) if sts else None))
+    for mname, final in (('elect', 'elected'), ('defeat', 'defeated')):
+        mf = cand.methods.get(mname)
+        need(mf is not None, 'Candidate.%s missing' % mname)
+        mcfg = cfg_of(mf)
+        stn = {x for x in mcfg.stmt_nodes() if x.kind == 'stmt' and isinstance(x.ast, ast.Assign) and unparse(x.ast.targets[0]) == 'self.state'}
+        okv = bool(stn) and all(const_str(x.ast.value) == final for x in stn)
+        okp = mcfg.exit not in mcfg.reach([mcfg.entry], avoid=stn, include_start=True)
+        other = [c for c in mf.own_nodes() if isinstance(c, ast.Call) and isinstance(c.func, ast.Attribute) and c.func.attr in STATUS_METHODS
+                 and isinstance(c.func.value, ast.Name) and c.func.value.id == 'self']
+        ctx.check(okv and okp and not other, R, mf.node, mf, "Candidate.%s() leaves the candidate %s on every path" % (mname, final),
+                  "self.state = '%s' on every path; no other status method called" % final,
+                  "Candidate.%s() can return without setting state '%s' (or calls %s): the rule's seat and candidate counts were made on the assumption that it does"
+                  % (mname, final, ', '.join('self.' + c.func.attr for c in other) or 'nothing else'))
     # (a) stores to .state / .pending only in Candidate methods
     stores = _attr_stores(repo, ('state', 'pending'))
     inside = 0
